@@ -144,6 +144,23 @@ static void case_QNM(ByteSource& in, CaseInfo& ci) {
     std::string expect = wrap_expected(shape, mid); Api api = pick_api(in, snsize, expect.size()); ci.label("%M"); ci.label(API_NAME[api]); ci.nontrivial = true; ci.d("M fmt=\"%s\" v=%llx", spec.c_str(), (unsigned long long)v);
     Out o = call_shape(api, expect.size() + 64, snsize, shape, spec, s, (mp_limb_t)v, &nout); judge_out("%M", api, o, expect, snsize, spec, nout, shape); }
 }
+// %Fa / %FA (C99-style hex float; the library prints the mantissa in whole hex digits, so the binary exponent is a multiple of 4): value-exact model
+// for dyadic values, precision absent (minimal digits) or at least the digits the value needs (zero padded); flags -, +, space and a width
+static void case_Fa(ByteSource& in, CaseInfo& ci) {
+  bool upper = in.flag(); Spec s = gen_spec(in, upper ? "A" : "a", true); s.hash = false; s.zero = false; if (s.pmode == 3) s.pmode = 0;
+  uint64_t mm = in.flag() ? in.u64() >> in.range(0, 60) : in.range(0, 70000); if (in.chance(20)) mm = 0; long ex = (long)in.srange(-200, 200); bool neg = in.flag() && mm;
+  Int M = Int::from_u64(mm); long E = ex; if (mm) { while (!M.is_odd()) { M = ref::tshr(M, 1); E++; } } else E = 0;
+  long sh = ((E % 4) + 4) % 4; Int M4 = ref::shl(M, (uint64_t)sh); long E4 = E - sh; std::string D = mm ? ref::to_string(M4, 16, upper) : "0"; long pe = mm ? E4 + 4 * ((long)D.size() - 1) : 0;
+  int need = (int)D.size() - 1; if (s.has_prec()) { if (s.pmode == 2 && s.prec < 0) { s.pmode = 0; } else if (s.eff_prec() < need || s.eff_prec() > need + 40) s.prec = need + (int)in.range(0, 5); }
+  std::string frac = D.substr(1); if (s.has_prec()) frac += std::string((size_t)(s.eff_prec() - need), '0');
+  std::string body = std::string(upper ? "0X" : "0x") + D[0] + (frac.empty() ? "" : "." + frac) + (upper ? "P" : "p") + (pe < 0 ? "-" : "+") + std::to_string(std::labs(pe));
+  std::string sign = neg ? "-" : s.plus ? "+" : s.space ? " " : ""; size_t len = sign.size() + body.size(), w = (size_t)s.eff_width(); std::string pad = len < w ? std::string(w - len, ' ') : ""; std::string mid = s.eff_left() ? sign + body + pad : pad + sign + body;
+  unsigned shape = in.pick({4, 2, 2}); std::string expect = wrap_expected(shape, mid), spec = s.str("F"); size_t snsize; Api api = pick_api(in, snsize, expect.size()); int nout = -1; g_alloc_err.clear();
+  mpf_t x; mpf_init2(x, 256); mpf_set_ui(x, 0); if (mm) { mpz_t z; mpz_init(z); mpz_from_int(z, M); mpf_set_z(x, z); mpz_clear(z); if (E >= 0) mpf_mul_2exp(x, x, (unsigned long)E); else mpf_div_2exp(x, x, (unsigned long)(-E)); if (neg) mpf_neg(x, x); }
+  ci.label("%Fa"); ci.label(API_NAME[api]); ci.nontrivial = mm != 0; ci.d("Fa fmt=\"%s\" value=%s%llu*2^%ld w=%d p=%d", spec.c_str(), neg ? "-" : "", (unsigned long long)mm, ex, s.width, s.prec);
+  Out o = call_shape(api, expect.size() + 64, snsize, shape, spec, s, (mpf_srcptr)x, &nout); mpf_clear(x);
+  judge_out("%Fa", api, o, expect, snsize, spec, nout, shape);
+}
 // %Ff of integer-valued mpf numbers of many limbs held with more precision than they need: every digit of the integer is exact
 static void case_F_big(ByteSource& in, CaseInfo& ci) {
   size_t n = in.flag() ? (size_t)in.range(1, 6) : (size_t)in.range(6, 40); Limbs v = limbs_nz(in, n); if (in.chance(60)) v.assign(n, ~0ull); bool neg = in.flag(); Int N = Int::from_limbs(v.data(), n, neg);
@@ -161,6 +178,7 @@ static void case_F_big(ByteSource& in, CaseInfo& ci) {
 }
 static void case_F(ByteSource& in, CaseInfo& ci) {
   if (in.chance(70)) { case_F_big(in, ci); return; }
+  if (in.chance(50)) { case_Fa(in, ci); return; }
   // dyadic value m/2^k whose decimal expansion is exact within the requested precision: libc prints it exactly, byte-identical output expected
   static const char cv[] = "feEgG"; Spec s = gen_spec(in, cv, false); if (s.hash) { s.hash = false; ci.label("F:hash_flag_not_asserted"); }   /* the manual does not spell out '#' for %F */
   long m = (long)in.srange(-(1 << 20), 1 << 20); if (in.chance(40)) m = 0; int k = (int)in.range(0, 10); double d = std::ldexp((double)m, -k);
@@ -232,6 +250,6 @@ static void check(ByteSource& in, CaseInfo& ci) { switch (in.pick({10, 5, 4, 4})
 namespace eng {
 PropDef g_prop = {"C18",
   "Cases: one call of a member of the gmp_printf family (sprintf, snprintf with size 0..len+1 into a buffer of exactly that many bytes, asprintf, fprintf, obstack_printf appended to an object being grown, and the five va_list forms) on a format made of flags subset of {-,+,space,#,0} x width {none,1,5,20,* positive,* negative} x precision {none,.0,.3,.25,.* (also negative),'.' alone} x conversion d,i,o,x,X for %Z (values 0,+-1,..,LONG_MIN/MAX, random longs, multi-limb), %Q, %N (negative size), %M (d,i,o,u,x,X), and e,f,g,E,G for %F, alone or embedded between standard conversions (%d %s %c %% %ld %5.2f %n). Oracle: libc snprintf with %l and the equal long value (byte-identical) wherever C gives the conversion a meaning; a layout model of C's padding/sign/prefix/precision rules, validated against libc in the same run, for signed o/x/X and values that do not fit a long; libc %l for %M; libc double output for %F on dyadic values whose expansion is exact at the requested precision; return value = full length, truncation = first size-1 bytes + NUL, asprintf block = length+1 (recording allocator), %n. Input: gmp_sscanf / gmp_fscanf read back what the output functions printed (%Zd %Zi %Zx %Zo %Qd %Qi %Ff %Fe %Fg %Fa, %n, %*Zd), C-style count, EOF and matching failure. Not asserted: '#' with precision 0 on zero, '0' flag with %Q. Non-trivial: every case. Distinct = hash of all decoded choices.",
-  check, setup, {"Z:compared_with_libc", "Z:big_value_model", "Z:signed_oxX_model", "Z:empty_precision", "%Q", "%N", "%M", "%F", "gmp_snprintf", "gmp_asprintf", "gmp_vsnprintf", "gmp_fprintf", "gmp_obstack_printf", "gmp_sscanf", "gmp_fscanf", "gmp_vsscanf", "gmp_vfscanf", "scan:eof", "flag0_with_minus", "flag0_with_precision"}, fixed_case, sweep_count, sweep_item,
+  check, setup, {"Z:compared_with_libc", "Z:big_value_model", "Z:signed_oxX_model", "Z:empty_precision", "%Q", "%N", "%M", "%F", "%Fa", "F:integer_valued_many_limbs", "gmp_snprintf", "gmp_asprintf", "gmp_vsnprintf", "gmp_fprintf", "gmp_obstack_printf", "gmp_sscanf", "gmp_fscanf", "gmp_vsscanf", "gmp_vfscanf", "scan:eof", "flag0_with_minus", "flag0_with_precision"}, fixed_case, sweep_count, sweep_item,
   "the full cross product of the 32 flag subsets of {-,+,space,#,0} x width {none,1,5,20,* = 9,* = -9} x precision {none,.0,.3,.25,.* = 4,.* = -2,'.' alone} x conversion {d,i,o,x,X} x 12 long values (0,+-1,+-7,+-123,65535,LONG_MAX,LONG_MIN,1000000007,-99999) through gmp_snprintf %Z: compared with libc where C gives the conversion a meaning, with the libc-validated layout model otherwise (80,640 format/value pairs)"};
 }
